@@ -1097,6 +1097,9 @@ class HttpPayloadParser:
                             )
                             set_exception(self.payload, exc)
                             raise exc
+                        # Do not buffer more of a line than a complete one may have
+                        if len(chunk.rstrip(b"\r")) > self._max_line_size:
+                            raise LineTooLong(chunk[:100] + b"...", self._max_line_size)
                         self._chunk_tail = chunk
                         self._paused = False
                         return PayloadState.PAYLOAD_NEEDS_INPUT, b""
@@ -1155,6 +1158,11 @@ class HttpPayloadParser:
                             )
                             set_exception(self.payload, exc)
                             raise exc
+                        # Do not buffer more of a line than a complete one may have
+                        if len(chunk.rstrip(b"\r")) > self._max_field_size:
+                            raise LineTooLong(
+                                chunk[:100] + b"...", self._max_field_size
+                            )
                         self._chunk_tail = chunk
                         self._paused = False
                         return PayloadState.PAYLOAD_NEEDS_INPUT, b""
